@@ -179,7 +179,29 @@ func PacketReaderNext(r *packet.Reader) (packet.Packet, error) {
 	}
 	sig := new(packet.Signature)
 	sig.Hash = crypto.SHA256
+	// the issuer named in the packet is the attacker's choice: the recipient's key or one nobody holds
+	id := PGPRecipientKeyID
+	if Bool("pgp.packet.issuer_unknown") {
+		id = PGPRecipientKeyID + 2
+	}
+	sig.IssuerKeyId = &id
 	return sig, nil
+}
+
+// PGPRecipientKeyID is the key id of the primary key NewPGPRecipient builds.
+const PGPRecipientKeyID = uint64(7)
+
+// KeysById as documented: the keys of the ring (primary keys here; the rings built by the harnesses have no subkeys)
+// whose id is the given one.
+//
+//verif:replace (github.com/ProtonMail/go-crypto/openpgp.EntityList).KeysById
+func PGPKeysById(el openpgp.EntityList, id uint64) (keys []openpgp.Key) {
+	for _, e := range el {
+		if e.PrimaryKey != nil && e.PrimaryKey.KeyId == id {
+			keys = append(keys, openpgp.Key{Entity: e, PublicKey: e.PrimaryKey})
+		}
+	}
+	return
 }
 
 type GhostHash struct {
@@ -212,7 +234,7 @@ func PGPVerifySignature(pk *packet.PublicKey, signed hash.Hash, sig *packet.Sign
 
 // NewPGPRecipient builds a key ring with one entity whose primary key is an opaque public key.
 func NewPGPRecipient() openpgp.EntityList {
-	e := &openpgp.Entity{PrimaryKey: new(packet.PublicKey)}
+	e := &openpgp.Entity{PrimaryKey: &packet.PublicKey{KeyId: PGPRecipientKeyID}}
 	return openpgp.EntityList{e}
 }
 
